@@ -768,7 +768,7 @@ fn capture_spans(ast: &Seq) -> Vec<((usize, usize), (usize, usize))> {
     out
 }
 
-fn check_capture_spans(rep: &Report, c: &mut Counters, origin: &str, text: &str, g: &Glob<'_>) {
+pub fn check_capture_spans(rep: &Report, c: &mut Counters, origin: &str, text: &str, g: &Glob<'_>) {
     let Ok(ast) = syntax::parse(text) else {
         bump(c, "unparsed_by_reference", 1);
         return;
